@@ -55,6 +55,30 @@ Definition scalar_width (s : scalar) : option nat :=
   | SI64 | SU64 | SF64 => Some 8 | _ => None
   end%nat.
 
+(* a lower bound of the encoded size of any value of the type *)
+Fixpoint min_width (t : ty) : nat :=
+  match t with
+  | TS s => match s with
+            | SI8 | SU8 | SBool => 1 | SI16 | SU16 => 2 | SI32 | SU32 | SF32 | SStr | SValue => 4
+            | SI64 | SU64 | SF64 => 8 | SObject => 24 | SUnknown | SVoid => 0
+            end
+  | TList _ | TMap _ _ => 4
+  | TTuple ts => fold_right (fun t a => min_width t + a) 0 ts
+  | TStruct _ fs => fold_right (fun f a => min_width (snd f) + a) 0 fs
+  end%nat.
+
+(* containers whose elements occupy at least one byte (so that a count is bounded by the
+   bytes that follow it); lists of void / of empty tuples are outside the theorems *)
+Fixpoint wfz (t : ty) : bool :=
+  match t with
+  | TS _ => true
+  | TList t' => Nat.leb 1 (min_width t') && wfz t'
+  | TMap k v => Nat.leb 1 (min_width k + min_width v) && wfz k && wfz v
+  | TTuple ts => forallb wfz ts
+  | TStruct _ fs => forallb (fun f => wfz (snd f)) fs
+  end.
+Definition good_ty (t : ty) : bool := wf_ty t && wfz t.
+
 (* typing; strings and containers within what a length field can say *)
 Fixpoint has_ty (v : tval) (t : ty) {struct v} : bool :=
   match v, expand1 t with
@@ -79,7 +103,8 @@ Fixpoint has_ty (v : tval) (t : ty) {struct v} : bool :=
          | _, _ => false
          end) l fs
   | VTup [], TS SVoid => true
-  | VDyn t' v', TS SValue => wf_ty t' && has_ty v' t'
+  | VDyn t' v', TS SValue =>
+      good_ty t' && (N.of_nat (String.length (print t')) <=? MaxStringSize) && has_ty v' t'
   | _, _ => false
   end.
 
@@ -425,6 +450,15 @@ Fixpoint tval_eqb (a b : tval) : bool :=
          end) l1 l2
   | VDyn t x, VDyn t' y => ty_eqb t t' && tval_eqb x y
   | _, _ => false
+  end.
+
+(* nesting of dynamic values: the fuel the decoders need *)
+Fixpoint dyn_depth (v : tval) : nat :=
+  match v with
+  | VList l | VTup l => fold_right (fun x a => Nat.max (dyn_depth x) a) 0%nat l
+  | VMap kvs => fold_right (fun kv a => Nat.max (Nat.max (dyn_depth (fst kv)) (dyn_depth (snd kv))) a) 0%nat kvs
+  | VDyn _ v => S (dyn_depth v)
+  | _ => 0%nat
   end.
 
 Fixpoint tval_depth (v : tval) : nat :=
